@@ -35,9 +35,14 @@ package fs
 // mkdir_unix.go
 // ---------------------------------------------------------------------------
 
+// the owner the chowner asks for is applied to the entry itself (no link followed) every time:
+// what the entry's owner happened to be elsewhere is no reason to leave the new entry as created
 //@ func Chown
 //@   property C13 C14
-//@   effects ChownerCall Lchown
+//@   effects ChownerCall ChownerRes Lchown
+//@   ensures asked_once: fn != nil ==> cnt(ChownerCall) == old(cnt(ChownerCall)) + 1 && arg(ChownerCall, 0) == ref(old)
+//@   ensures requested_owner_applied: fn != nil && result == nil && arg(ChownerRes, 0) != nil ==> cnt(Lchown) == old(cnt(Lchown)) + 1 && arg(Lchown, 0) == p && arg(Lchown, 1) == arg(ChownerRes, 0).UID && arg(Lchown, 2) == arg(ChownerRes, 0).GID
+//@   ensures chowner_failure_reported: fn != nil && arg(ChownerRes, 1) != nil ==> result != nil
 //@   ensures none: fn == nil ==> result == nil && cnt(Lchown) == old(cnt(Lchown))
 //@   ensures atmost: cnt(Lchown) <= old(cnt(Lchown)) + 1
 //@   ensures target: cnt(Lchown) > old(cnt(Lchown)) ==> arg(Lchown, 0) == p
@@ -112,7 +117,7 @@ package fs
 //@   property C13 C14
 //@   mode bv
 //@   requires c != nil && fi != nil && isptr(fi.Sys(), syscall.Stat_t) && asptr(fi.Sys(), syscall.Stat_t) != nil
-//@   effects ChownerCall Lchown Chmod Utimes
+//@   effects ChownerCall ChownerRes Lchown Chmod Utimes
 //@   ensures chown_target: cnt(Lchown) > old(cnt(Lchown)) ==> arg(Lchown, 0) == name && cnt(Lchown) == old(cnt(Lchown)) + 1
 //@   ensures no_chmod_on_symlink: specIsSymlinkMode(fi.Mode()) ==> cnt(Chmod) == old(cnt(Chmod))
 //@   ensures chmod_once: result == nil && !specIsSymlinkMode(fi.Mode()) ==> cnt(Chmod) == old(cnt(Chmod)) + 1 && arg(Chmod, 0) == name
@@ -179,7 +184,7 @@ package fs
 //@   property C16 C14
 //@   requires c != nil
 //@   modifies c.parentDirs[*]
-//@   effects Stat StatRes Lstat LstatRes Mkdir MkdirOK Chmod ChownerCall Lchown Utimes LListxattr LGetxattr LSetxattr XattrErr
+//@   effects Stat StatRes Lstat LstatRes Mkdir MkdirOK Chmod ChownerCall ChownerRes Lchown Utimes LListxattr LGetxattr LSetxattr XattrErr
 //@   loop 0 invariant done: forall k int :: 0 <= k && k <= rangeindex && k < len(c.parentDirs) ==> c.parentDirs[k].copied
 //@   loop 0 invariant same: forall k int :: 0 <= k && k < len(c.parentDirs) ==> c.parentDirs[k].srcPath == old(c.parentDirs[k].srcPath) && c.parentDirs[k].dstPath == old(c.parentDirs[k].dstPath) && (old(c.parentDirs[k].copied) ==> c.parentDirs[k].copied)
 //@   loop 0 invariant idle: (forall k int :: 0 <= k && k < len(c.parentDirs) ==> old(c.parentDirs[k].copied)) ==> clk() == old(clk())
@@ -277,7 +282,7 @@ package fs
 //@ func MkdirAll
 //@   property C13 C14 C15
 //@   safety +overflow
-//@   effects Stat StatRes Lstat LstatRes Mkdir MkdirOK ChownerCall Lchown Utimes
+//@   effects Stat StatRes Lstat LstatRes Mkdir MkdirOK ChownerCall ChownerRes Lchown Utimes
 //@   loop 0 invariant i: 0 <= i && i <= len(path)
 //@   loop 1 invariant j: 0 <= j && j <= len(path)
 //@   ensures fresh_result: result0 == nil || fresh(result0)
@@ -301,7 +306,7 @@ package fs
 //@ func copier.prepareTargetDir
 //@   property C15 C14
 //@   requires c != nil
-//@   effects Stat StatRes Lstat LstatRes Mkdir MkdirOK ChownerCall Lchown Utimes
+//@   effects Stat StatRes Lstat LstatRes Mkdir MkdirOK ChownerCall ChownerRes Lchown Utimes
 //@   ensures src_lstat: cnt(Lstat) >= old(cnt(Lstat)) + 1
 //@   at call os.Lstat#0: source: arg0 == srcFollowed
 //@   at call os.Stat#0: dest: arg0 == destPath && cnt(Lstat) == old(cnt(Lstat)) + 1
@@ -375,12 +380,16 @@ package fs
 //@ func resolveWildcards$1
 //@   property C15
 //@   modifies array string
+//@   effects GlobMatch GlobMatchRes
+//@   ensures every_entry_offered: err == nil && filepath.Rel#1(basePath, path) == nil && filepath.Rel(basePath, path) != "." ==> cnt(GlobMatch) == old(cnt(GlobMatch)) + 1 && arg(GlobMatch, 0) == comp && arg(GlobMatch, 1) == filepath.Rel(basePath, path)
+//@   ensures recorded_iff_matched: (len(out) == old(len(out)) + 1) == (cnt(GlobMatchRes) > old(cnt(GlobMatchRes)) && arg(GlobMatchRes, 0))
 //@   requires skipdir_is_an_error: filepath.SkipDir != nil
 //@   ensures prune_only_below_a_match: err == nil && filepath.Rel#1(basePath, path) == nil && result == filepath.SkipDir ==> len(out) == old(len(out)) + 1 && info.IsDir()
 //@   ensures record_only_matches: len(out) == old(len(out)) || (len(out) == old(len(out)) + 1 && out[len(out)-1] == path)
 //@ func resolveWildcards
 //@   property C15
 //@   modifies array string
+//@   effects GlobMatch GlobMatchRes
 //@ func splitWildcards
 //@   property C15
 //@   modifies array string
@@ -388,4 +397,4 @@ package fs
 //@ func ResolveWildcards
 //@   property C15
 //@   modifies array string
-//@   effects RootResolve
+//@   effects RootResolve GlobMatch GlobMatchRes
